@@ -552,3 +552,11 @@ func c15Property(rt *rapid.T) {
 }
 
 func TestC15(t *testing.T) { rapid.Check(t, c15Property) }
+
+func refEncode(f *frame.Frame) ([]byte, error) {
+	enc, err := ref.EncodeFrame(f)
+	if err != nil {
+		return nil, err
+	}
+	return enc.Flat(nil), nil
+}
